@@ -283,6 +283,7 @@ def retry(chk, crate):
             stores[bb] = ("S", ("agg", "core::option::Option::Some", (ex.operand(t_["args"][1]),)))
     for bb, (kind, e) in stores.items():
         if kind == "S":
+            e = ex.select_variant(e)          # `Ok(conn)` of an inlined helper
             from_connect = any(x[0] == "call" and x[1] == "zvt_feig_terminal::stream::outer::inner::connect" for x in walk(e))
             flds = [x[2] for x in walk(e) if x[0] == "proj"]
             ok_payload = any("@Ok" in fl for fl in flds)
